@@ -430,6 +430,7 @@ type Contract struct {
 	CallSites  map[string][]*Clause // callee name -> extra obligations at each call in this function
 	CloseOnly  []string             // type block: channel fields that are never sent on, only closed
 	LockAssume []*Clause            // assumed right after every Lock in this function (token arguments); listed as assumptions
+	GhostDefs  [][2]*Clause         // ghost assignments at return: location, value
 }
 
 type ContractFile struct {
@@ -445,7 +446,7 @@ var clauseKeywords = map[string]bool{
 	"property": true, "mode": true, "requires": true, "ensures": true, "modifies": true, "reads": true,
 	"loop": true, "assert": true, "pure": true, "inline": true, "trusted": true, "unproved": true,
 	"assume": true, "option": true, "expect": true, "def": true, "unfold": true, "macro": true, "guards": true,
-	"invariant": true, "rely": true, "ghost": true, "replay": true, "package": true, "end": true, "ghostfield": true, "let": true, "callsite": true, "closeonly": true, "lockassume": true,
+	"invariant": true, "rely": true, "ghost": true, "replay": true, "package": true, "end": true, "ghostfield": true, "let": true, "callsite": true, "closeonly": true, "lockassume": true, "ghostdef": true,
 }
 
 func firstWord(s string) (string, string) {
@@ -623,6 +624,21 @@ func ParseContractFile(path string, pkg string) (*ContractFile, error) {
 			cur.Unfold = -1
 		case "guards":
 			cur.Guards = strings.Fields(strings.ReplaceAll(rest, ",", " "))
+		case "ghostdef":
+			// ghostdef <ghost location> == <expr> : ghost assignment performed at every return of the function
+			i := strings.Index(rest, "==")
+			if i < 0 {
+				return nil, fail("ghostdef <ghost location> == <expr>")
+			}
+			lhs, err := mkClause("ghostdef", strings.TrimSpace(rest[:i]), l.line)
+			if err != nil {
+				return nil, err
+			}
+			rhs, err := mkClause("ghostdef", strings.TrimSpace(rest[i+2:]), l.line)
+			if err != nil {
+				return nil, err
+			}
+			cur.GhostDefs = append(cur.GhostDefs, [2]*Clause{lhs, rhs})
 		case "lockassume":
 			cl, err := mkClause("lockassume", rest, l.line)
 			if err != nil {
